@@ -90,6 +90,7 @@ type FV struct {
 	inlineStack []string
 	locksetOK   int
 	topFrame    *Frame
+	curFrame    *Frame
 	sections    map[string]int // lock field -> critical sections entered by the top function on its receiver
 	subCtr      int
 	axioms      []axiomTerm
